@@ -1312,6 +1312,34 @@ def run(ctx):
             continue
         bb = (m.bbox.ixmin, m.bbox.ixmax, m.bbox.iymin, m.bbox.iymax)
         report(direct_checks(ctx, case, aper, m.data, bb, 'compiled'))
+    # ---------------- annulus sweep (python oracles only): generic centres, hole well inside the box ----------------
+    for k in range(60 if quick else 400):
+        fam = ('cannulus', 'eannulus', 'rannulus')[k % 3]
+        ro, ratio = rng.uniform(2.0, 12.0), rng.uniform(0.15, 0.95)
+        th = rng.choice([0.0, rng.uniform(-4, 4)])
+        params = {'cannulus': dict(r_in=ro * ratio, r_out=ro),
+                  'eannulus': dict(a_in=ro * ratio, a_out=ro, b_out=ro * rng.uniform(0.3, 1.0), theta=th),
+                  'rannulus': dict(w_in=ro * ratio, w_out=ro, h_out=ro * rng.uniform(0.3, 1.0), theta=th)}[fam]
+        case = dict(fam=fam, params=params, px=rng.uniform(-5, 30), py=rng.uniform(-5, 30),
+                    method=rng.choice(['center', 'center', 'exact']) if fam != 'rannulus' else 'center', sub=1,
+                    lat=False, exact_arith=False, pos_kind='annulus-sweep')
+        ctx.stat('family', fam + '-sweep')
+        ctx.count_case(case_key(case), True)
+        try:
+            aper = make_aperture(case)
+            m = aper.to_mask(method=case['method'], subpixels=1)
+        except Exception as e:   # noqa: BLE001
+            ctx.violation(f'to_mask:{fam}:raises', f'to_mask raises {type(e).__name__}: {e}', mask_rep(case, 'compiled'))
+            continue
+        bb = (m.bbox.ixmin, m.bbox.ixmax, m.bbox.iymin, m.bbox.iymax)
+        if case['method'] == 'center':
+            nbad, nund = huge_center_oracle(dict(case), m.data, bb)
+            ctx.support('annulus-center-masks-vs-vectorised-float-oracle')
+            if nbad:
+                ctx.violation(f'to_mask:{fam}:center-fraction', f'{nbad} pixels of a center annulus mask differ from '
+                              '"pixel centre strictly inside outer and not inside inner"', mask_rep(case, 'compiled'))
+        if case['method'] == 'exact' and m.data.size <= 900:
+            report(direct_checks(ctx, case, aper, m.data, bb, 'compiled'))
     # ---------------- integer-shift covariance of masks (from_float_shift) ----------------
     for k in range(40 if quick else 200):
         case = gen_mask_case(rng, 'quick')
